@@ -7,7 +7,7 @@ from .. import common, libdiff, translate
 from ..common import coq_string, coq_list
 
 THEOREMS_T = ["c05_translated_source_panics_iff_shared", "c05_translated_source_passes_iff_disjoint",
-              "c05_translated_source_refines_model", "c05_translated_source_deterministic"]
+              "c05_translated_source_refines_model", "c05_translated_source_deterministic", "c05_translated_source_any_run"]
 THEOREMS_A = ["c05_overlap_check_panics_iff_shared", "c05_overlap_check_passes_iff_disjoint",
               "c05_overlap_check_total", "c05_published_list_sorted", "c05_published_list_is_wire_names",
               "c05_contract_compiles_iff_no_shared_name"]
